@@ -201,7 +201,8 @@ static void h_op(void)
   if (!strcmp(op, "poke") && R->type != eslRND_MERSENNE) { h_out("bad-op"); return; }
   if (!strcmp(op, "poke")) {   /* force the next (pre-tempering) state word: reaches generator states that seeds make astronomically rare */
     if (R->mti >= 624) (void) esl_random_uint32(R);
-    R->mt[R->mti] = (uint32_t) h_argu("raw", 0);
+    { int64_t n = h_argi("n", 1), j;    /* n > 1 (round 6b): the next n words, as far as the current table reaches - e.g. esl_random() = 0.0 at EVERY draw of one call */
+      for (j = 0; j < n && R->mti + j < 624; j++) R->mt[R->mti + j] = (uint32_t) h_argu("raw", 0); }
     h_out("ok");
     return;
   }
